@@ -289,6 +289,13 @@ func (e *env) binary(x *Bin) interface{} {
 			return a >= b
 		}
 	}
+	for _, v := range []interface{}{l, r} {
+		if kindOf(v) == kInt {
+			if n := asInt(v); n > 1<<53 || n < -(1<<53) {
+				panic(Unspec("integer beyond 2^53 in a floating-point operation (not exactly representable)"))
+			}
+		}
+	}
 	a, b := asFloat(l), asFloat(r)
 	switch x.Op {
 	case "+":
@@ -331,6 +338,13 @@ func (e *env) equal(l, r interface{}, kl, kr numKind) bool {
 	case kl == kInt && kr == kInt:
 		return asInt(l) == asInt(r)
 	case (kl == kInt || kl == kFloat) && (kr == kInt || kr == kFloat):
+		for _, v := range []interface{}{l, r} {
+			if kindOf(v) == kInt {
+				if n := asInt(v); n > 1<<53 || n < -(1<<53) {
+					panic(Unspec("integer beyond 2^53 compared with a float"))
+				}
+			}
+		}
 		return asFloat(l) == asFloat(r)
 	case kl == kString && kr == kString:
 		return reflect.ValueOf(l).String() == reflect.ValueOf(r).String()
